@@ -76,7 +76,7 @@ def replay(case) -> dict:
         if hasattr(im, "shape") and list(im.shape) == list(case["binned_shape"]):
             got_im = np.asarray(im, dtype=np.float64)
             want_im = blocksum(imgs[int(key)])
-            if got_im.shape != want_im.shape or np.max(np.abs(got_im - want_im)) > 1e-3 * max(1.0, float(np.abs(want_im).max())):
+            if got_im.shape != want_im.shape or (want_im.size and np.max(np.abs(got_im - want_im)) > 1e-3 * max(1.0, float(np.abs(want_im).max()))):
                 failures.append(dict(desc, clause="BinnedImageIsBlockSum", image=str(key)))
     # binning composes (Binning.tla, ChainLaw): binning(b1).binning(b2) is binning(b1 b2) - image, scale and positions - and
     # binning one loader never changes what ANOTHER loader derived from the same parent returns afterwards
@@ -91,12 +91,12 @@ def replay(case) -> dict:
             failures.append(dict(desc, clause="BinningComposes", what="scale_or_positions", chain=[b1, b2]))
         for (k1, im1), (k2, im2) in zip(images_of(chain), images_of(binned)):
             a1, a2 = np.asarray(im1, dtype=np.float64), np.asarray(im2, dtype=np.float64)
-            if a1.shape != a2.shape or np.max(np.abs(a1 - a2)) > 1e-3 * max(1.0, float(np.abs(a2).max())):
+            if a1.shape != a2.shape or (a2.size and np.max(np.abs(a1 - a2)) > 1e-3 * max(1.0, float(np.abs(a2).max()))):
                 failures.append(dict(desc, clause="BinningComposes", what="image", chain=[b1, b2], image=str(k1)))
         again = engine.api(parent.binning, b, compute=cfg["compute"])      # after the chain: the parent bins as before
         for (k1, im1), (k2, im2) in zip(images_of(again), images_of(binned)):
             a1, a2 = np.asarray(im1, dtype=np.float64), np.asarray(im2, dtype=np.float64)
-            if a1.shape != a2.shape or np.max(np.abs(a1 - a2)) > 1e-3 * max(1.0, float(np.abs(a2).max())):
+            if a1.shape != a2.shape or (a2.size and np.max(np.abs(a1 - a2)) > 1e-3 * max(1.0, float(np.abs(a2).max()))):
                 failures.append(dict(desc, clause="BinningIndependentOfEarlierBinnings", image=str(k1)))
     if cfg["kind"] == "batch" and b > 1:
         # rows keep their order: a batch whose molecules of different tomograms are interleaved (first, second, first)
